@@ -166,6 +166,20 @@ def decl(m):
 def doc_lines(docs, ind):
     return "".join(f"{ind}/// {d}\n" for d in docs)
 
+def ser_safe(tok):
+    """field types for which `#[derive(serde::Serialize)]` compiles without extra features or bounds"""
+    return not any(w in tok for w in ("Rc", "Arc", "Cell", "Instant", "OsString", "Cow", "@"))
+
+def serde_attr(f, ind):
+    """serde options that keep a field on the wire under its own name do not concern the description: a field that is
+    only *sometimes* left out when serialising (`skip_serializing_if`) or filled in when absent (`default`) is still a field"""
+    tok = f["rt"][0]
+    if tok.startswith("Option("):
+        return ind + '#[serde(skip_serializing_if = "Option::is_none")]\n'
+    if tok.startswith("Vec("):
+        return ind + '#[serde(default, skip_serializing_if = "Vec::is_empty")]\n'
+    return ""
+
 def emit(m):
     i = m["idx"]
     o = [f"pub mod i{i} {{", "    use super::*;"]
@@ -173,9 +187,12 @@ def emit(m):
         lt = "<'a>" if t["lt"] else ""
         if t["kind"] in ("ts", "cs"):
             der = "Type" if t["kind"] == "ts" else "CustomType"
+            # structs whose field types allow it also derive Serialize and carry the serde options real message types carry
+            ser = all(ser_safe(f["rt"][0]) for f in t["fields"])
+            if ser: der += ", serde::Serialize"
             o.append(doc_lines(t["docs"], "    ") + f"    #[derive({der})]\n    #[zlink(crate = \"zlink_core\")]\n    pub struct {t['name']}{lt} {{")
             for f in t["fields"]:
-                o.append(doc_lines(f["docs"], "        ") + f"        pub {f['name']}: {f['rt'][1]},")
+                o.append(doc_lines(f["docs"], "        ") + (serde_attr(f, "        ") if ser else "") + f"        pub {f['name']}: {f['rt'][1]},")
             o.append("    }")
         elif t["kind"] in ("te", "ce"):
             der = "Type" if t["kind"] == "te" else "CustomType"
